@@ -148,8 +148,15 @@ impl<'a> InstanceInformation {
 impl std::hash::Hash for InstanceInformation {
     fn hash<H: std::hash::Hasher>(&self, state: &mut H) {
         self.instance_name.hash(state);
-        self.ip_addresses.iter().for_each(|v| v.hash(state));
-        self.ports.iter().for_each(|v| v.hash(state));
+
+        // sets iterate in arbitrary order, equal instances must feed the hasher identically
+        let mut ip_addresses: Vec<&IpAddr> = self.ip_addresses.iter().collect();
+        ip_addresses.sort();
+        ip_addresses.hash(state);
+
+        let mut ports: Vec<&u16> = self.ports.iter().collect();
+        ports.sort();
+        ports.hash(state);
     }
 }
 
